@@ -30,6 +30,8 @@ func runC12(c *Ctx) {
 	c12Walk(c)
 	c12Err(c)
 	c12HostLen(c)
+	c12TrieKeys(c)
+	c01Dual(c)
 }
 
 func c12PrefixLen(c *Ctx) {
